@@ -148,6 +148,13 @@ func (a *TraderAgent) Step(s *Sim) {
 			if dOut == inDenom {
 				continue
 			}
+			if r.IntN(3) == 0 {
+				// the exact-out form of the same message: the amount is stated in the out denom
+				want := s.uniq(sdkmath.LegacyNewDecFromInt(resOut).Mul(decFromFloat(1e-4 * (0.5 + r.Float64()))).TruncateInt().AddRaw(1))
+				s.SendTx(u, "trader/swap_by_denom_out", &ammtypes.MsgSwapByDenom{Sender: u.Addr.String(), Amount: sdk.NewCoin(outDenom, want), MinAmount: sdk.NewCoin(outDenom, sdkmath.ZeroInt()), MaxAmount: sdk.NewCoin(outDenom, sdkmath.NewIntWithDecimal(1, 24)), DenomIn: inDenom, DenomOut: outDenom, Recipient: rcpt}) // the handler wants the max-in amount labelled with the OUT denom
+				s.Stats.Probe("swap_by_denom_exact_out_submitted")
+				continue
+			}
 			s.SendTx(u, "trader/swap_by_denom", &ammtypes.MsgSwapByDenom{Sender: u.Addr.String(), Amount: sdk.NewCoin(inDenom, in), MinAmount: sdk.NewCoin(dOut, sdkmath.ZeroInt()), DenomIn: inDenom, DenomOut: dOut, Recipient: rcpt})
 		}
 	}
@@ -217,6 +224,14 @@ func (a *LPAgent) Step(s *Sim) {
 				}
 			}
 			s.SendTx(u, "lp/exit", &ammtypes.MsgExitPool{Sender: u.Addr.String(), PoolId: p.PoolId, MinAmountsOut: sdk.Coins{}, ShareAmountIn: sh, TokenOutDenom: out})
+			continue
+		}
+		if r.Float64() < 0.04 {
+			// malformed but accepted? the same denom listed twice in the join's token list
+			d := p.PoolAssets[r.IntN(2)].Token.Denom
+			a1 := s.uniq(sdkmath.LegacyNewDecFromInt(reserveOf(p, d)).Mul(decFromFloat(0.001 + 0.2*r.Float64())).TruncateInt().AddRaw(1))
+			s.SendTx(u, "lp/join_duplicate_denom", &ammtypes.MsgJoinPool{Sender: u.Addr.String(), PoolId: p.PoolId, MaxAmountsIn: []sdk.Coin{sdk.NewCoin(d, a1), sdk.NewCoin(d, a1.MulRaw(2))}, ShareAmountOut: sdkmath.OneInt()})
+			s.Stats.Probe("join_with_duplicate_denom_submitted")
 			continue
 		}
 		// join
